@@ -350,4 +350,87 @@ contract(
 )
 
 
+# ------------------------------------------------------------------------------------------------ < 3.6 byte code driver
+def b_have_ext(opc):
+    return opc.HAVE_ARGUMENT, EXT(opc)
+
+
+def drvb_post(value, bytecode, opc, _ny, linestarts, line_offset):
+    """k-th instruction of the stream (byte code): at the offset CPython's _unpack_opargs reaches after k instructions, operand
+    folded over the whole code string"""
+    have, ext = b_have_ext(opc)
+    k = _ny
+    off = W.b_off(bytecode, k, have)
+    op = bytecode[off]
+    has_arg = op >= have
+    out = [("offset==b_off(k)", value.offset == off), ("opcode", value.opcode == op),
+           ("arg", value.arg == If(has_arg, W.b_arg(bytecode, k, have, ext), None)),
+           ("is_jump_target", value.is_jump_target == Has(label_spec(bytecode, opc), off))]
+    if linestarts is not None:
+        out.append(("starts_line", value.starts_line == If(MapHas(linestarts, off), MapAt(linestarts, off) + line_offset, None)))
+    return out
+
+
+def wf_ext_b(code, opc):
+    """valid code: EXTENDED_ARG is followed by an operand-taking instruction"""
+    have, ext = b_have_ext(opc)
+    if ext < 0:
+        return True
+    return ForAll(lambda i: Implies(And(0 <= i, i < Len(code), At(code, i) == ext, ext >= have), And(i + 3 < Len(code), At(code, i + 3) >= have)))
+
+
+def wf_groups_b(code, opc):
+    """valid code, stated per instruction start: the logical instruction (EXTENDED_ARG prefixes + instruction) that starts there
+    ends inside the code.  (Mathematically a consequence of the tiling precondition and wf_ext_b; assumed, not derived: the
+    derivation is an induction over the instruction index that the solver does not find.)"""
+    have, ext = b_have_ext(opc)
+    cnt = W.b_cnt(code, 0, have)
+    return ForAll(lambda k: Implies(And(0 <= k, k < cnt), W.gb_end(code, W.b_off(code, k, have), have, ext) <= Len(code)))
+
+
+def drvb_outer_inv(bytecode, opc, offset, n, _ny):
+    have, ext = b_have_ext(opc)
+    return And(n == Len(bytecode), _ny >= 0, offset == W.b_off(bytecode, _ny, have), offset >= 0,
+               W.b_ext(bytecode, _ny, have, ext) == 0,
+               W.b_cnt(bytecode, offset, have) + _ny == W.b_cnt(bytecode, 0, have))
+
+
+def drvb_inner_inv(bytecode, opc, offset, n, instructions, instruction, _k, _ny):
+    have, ext = b_have_ext(opc)
+    L = W.gb_len(bytecode, offset, have, ext)
+    k0 = _ny - _k
+    return And(n == Len(bytecode), offset >= 0, offset < n, 0 <= _k, _k <= L, k0 >= 0,
+               offset == W.b_off(bytecode, k0, have), W.b_ext(bytecode, k0, have, ext) == 0,
+               W.b_cnt(bytecode, offset, have) + k0 == W.b_cnt(bytecode, 0, have),
+               Implies(_k < L, And(_k + W.gb_len(bytecode, offset + 3 * _k, have, ext) == L,
+                                   offset + 3 * _k == W.b_off(bytecode, _ny, have),
+                                   W.gb_ext(bytecode, offset, _k) == W.b_ext(bytecode, _ny, have, ext),
+                                   W.b_cnt(bytecode, offset + 3 * _k, have) + _ny == W.b_cnt(bytecode, 0, have))),
+               Implies(And(_k >= 1, _k < L), And(bytecode[offset + 3 * (_k - 1)] == ext, ext >= have)),
+               Implies(_k >= 2, And(bytecode[offset + 3 * (_k - 2)] == ext, ext >= have)),
+               Implies(_k >= 1, And(instruction.offset == offset + 3 * (_k - 1), instruction.opcode == bytecode[offset + 3 * (_k - 1)],
+                                    instruction.offset == W.b_off(bytecode, _ny - 1, have),
+                                    W.b_cnt(bytecode, instruction.offset, have) + _ny - 1 == W.b_cnt(bytecode, 0, have),
+                                    Or(_k < L, Not(And(instruction.opcode == ext, instruction.opcode >= have))))))
+
+
+contract(
+    "xdis.bytecode:get_instructions_bytes", name="xdis.bytecode:get_instructions_bytes/bytecode",
+    kind="generator",
+    configs=lambda: dict((lb, {"opc": m, "exception_entries": None}) for lb, m in CW.tables().items() if m.version_tuple < (3, 6)),
+    when=lambda opc: opc.version_tuple < (3, 6),
+    params={"bytecode": Bytes(maxlen=9), "linestarts": IntMap(), "line_offset": Int(pool=[0, 5, -2]),
+            "varnames": Tok(tuple, ("a", "b")), "names": Tok(tuple, ("n",)), "constants": Tok(tuple, (None, 1)), "cells": Tok(tuple, ())},
+    examples={"bytecode": gen_code},
+    requires=lambda bytecode, opc, exception_entries: And(finder_pre(bytecode, opc), wf_ext_b(bytecode, opc), wf_groups_b(bytecode, opc), exception_entries is None),
+    raises={IndexError: True, AssertionError: True},      # AssertionError: operand formatters of basic.py on operands no compiler emits
+    yield_count=lambda bytecode, opc: W.b_cnt(bytecode, 0, opc.HAVE_ARGUMENT),
+    yield_fresh=FreshInstruction(),
+    yield_post=lambda value, bytecode, opc, _ny, linestarts, line_offset: drvb_post(value, bytecode, opc, _ny, linestarts, line_offset),
+    loops={2: Loop("while offset < n", invariant=drvb_outer_inv, decreases=lambda n, offset: n - offset),
+           3: Loop("for instruction in instructions", havoc={"instruction": FreshInstruction()}, invariant=drvb_inner_inv)},
+    unfold_depth=3,
+)
+
+
 ALL_CONTRACTS = CW.CONTRACTS + CONTRACTS     # callee contracts available at call sites
